@@ -422,7 +422,7 @@ func installEventMonitor(w *Writers, prop string) {
 func init() {
 	explore.Register(&explore.CheckDef{
 		ID: "C16", Level: "model_checking",
-		Rule: "Part A: explicit-state DFS over write/merge/announce/restart histories (three store types); a monitor running synchronously inside every EventWrite/EventReplicated emission requires the announced entries to be in the log, the view to equal the replay of the log, and the cached heads to cover them; exactly one write event per write, a replicated event for every merged batch; a bus subscriber with a 1-slot buffer and a subscriber on the store's legacy channel API, both reading only between actions, must receive exactly the emission sequence, and an event's content may not change after it was delivered. Part B: every interleaving (deviation-bounded DFS, all executions run to completion) of producer, the legacy emitter's reader and drain goroutines at their three schedule points, and the consumer, after the 16-slot delivery channel has been filled; the subscriber must receive 1..n exactly. Non-trivial = executions with at least one deviation from the canonical schedule / states with merged writers.",
+		Rule: "Part A: explicit-state DFS over write/merge/announce/restart histories (three store types); a monitor running synchronously inside every EventWrite/EventReplicated emission requires the announced entries to be in the log, the view to equal the replay of the log, and the cached heads to cover them; exactly one write event per write, a replicated event for every merged batch; a bus subscriber with a 1-slot buffer and a subscriber on the store's legacy channel API, both reading only between actions, must receive exactly the emission sequence, and an event's content may not change after it was delivered; concurrent local writers (the C17 world: two writers stepped through the write path's schedule points, all interleavings for the event log, <= 3 deviations for the other store types in quick): once all calls have returned, every returned entry is carried by exactly one write event and no write event carries anything else. Part B: every interleaving (deviation-bounded DFS, all executions run to completion) of producer, the legacy emitter's reader and drain goroutines at their three schedule points, and the consumer, after the 16-slot delivery channel has been filled; the subscriber must receive 1..n exactly. Non-trivial = executions with at least one deviation from the canonical schedule / states with merged writers.",
 		Units: func(tier string) []explore.Unit {
 			var u []explore.Unit
 			d := 4
@@ -458,6 +458,23 @@ func init() {
 					}
 				}
 			}
+			// concurrent local writers on one store (the C17 world): one write event per call, carrying that call's entry
+			for _, k := range []string{"eventlog", "keyvalue", "docstore"} {
+				cb := 3
+				if tier == "thorough" || k == "eventlog" {
+					cb = -1
+				}
+				for _, x := range c17Units(C17Arg{Kind: k, N: 2, Per: 1, Bound: cb}, 4) {
+					x.Name, x.Arg = "events-of-"+x.Name, "W"+x.Arg
+					u = append(u, x)
+				}
+			}
+			if tier == "thorough" {
+				for _, x := range c17Units(C17Arg{N: 3, Per: 1, Bound: 3}, 16) {
+					x.Name, x.Arg = "events-of-"+x.Name, "W"+x.Arg
+					u = append(u, x)
+				}
+			}
 			u = append(u, c16bUnits(C16BArg{K: kB, Reads: rB, Bound: bound}, 32)...)
 			u = append(u, c16bUnits(C16BArg{K: 2, Reads: 1, Bound: bound + 1}, 16)...)
 			u = append(u, c16bUnits(C16BArg{K: 1, Reads: 1, Bound: -1}, 8)...)
@@ -474,6 +491,32 @@ func init() {
 			arg := c.Spec.Unit.Arg
 			if strings.HasPrefix(arg, "B") {
 				runC16B(c, arg[1:])
+				return
+			}
+			if strings.HasPrefix(arg, "W") {
+				var a C17Arg
+				if err := json.Unmarshal([]byte(arg[1:]), &a); err != nil {
+					c.Stats.HarnessErrs = append(c.Stats.HarnessErrs, err.Error())
+					return
+				}
+				d := &explore.ScheduleDFS{
+					Settle:   settle,
+					Scenario: "events-of-" + a.Name(),
+					New: func() (explore.World, error) {
+						w, err := NewConcWritersMerge(a.Kind, a.N, a.Per, false, 0)
+						if err == nil {
+							err = w.WatchWriteEvents()
+						}
+						return w, err
+					},
+					Bound: a.Bound, Horizon: 400, Stats: c.Stats, Journal: c.JournalHist, Expired: c.Expired,
+					Shards: a.Shards, Shard: a.Shard,
+					Terminal: func(w explore.World, hist []string) []explore.Violation { return w.(*ConcWriters).WriteEventViolations() },
+				}
+				d.Run()
+				for i := range c.Stats.Violations {
+					c.Stats.Violations[i].Property = "C16"
+				}
 				return
 			}
 			if strings.HasPrefix(arg, "C") {
